@@ -23,7 +23,7 @@ def main():
         ck.e2('api-%s' % e, h_join.make(stages.join_cfg(
             e, nl=2, nr=2, k=1, kmin=0, allow_empty=[True, False], comp_ops=ops,
             thresholds=[0.5, 1.0] if e != 'overlap_join' else [1], n_jobs=[1, 2],
-            out_attrs=[(None, None)] if quick else [(None, None), (['x'], ['y'])],
+            out_attrs=[(None, None), (['x'], ['y'])],
             props=P, validate_every=60)))
     for f in stages.FILTERS:
         for measure in (['JACCARD', 'OVERLAP'] if quick else ['JACCARD', 'COSINE', 'DICE', 'OVERLAP']):
